@@ -271,7 +271,7 @@ def programs(tier, seed):
     q["name"] = "runtime-argument-chain"
     ps.append(q)
     # call-order hints that run against each other or against real dependencies (the graph must stay acyclic)
-    for shape in ("hints-opposite-orders", "hints-vs-solid-edge", "hint-vs-dashed-edge"):
+    for shape in ("hints-opposite-orders", "hints-vs-solid-edge", "hint-vs-dashed-edge", "same-node-reached-by-two-siblings"):
         q = gen.new_program("g%d" % k)
         k += 1
         m = gen.add_module(q, "gm")
@@ -296,6 +296,8 @@ def programs(tier, seed):
             f2 = gen.add_fn(q, m, "second", const=6)
             q["fns"][f2]["stmts"] = [gen.s_call(c, []), gen.s_call(ha, [gen.local(0)])]
             q["fns"][main]["stmts"] = [gen.s_call(f1, []), gen.s_call(f2, [])]
+        elif shape == "same-node-reached-by-two-siblings":
+            q["fns"][main]["stmts"] = [gen.s_call(a, []), gen.s_call(ha, [gen.local(0)]), gen.s_call(b, []), gen.s_call(hb, [gen.lit("1")])]
         else:
             q["fns"][a]["stmts"] = [gen.s_load("/h/b")]
             q["fns"][main]["stmts"] = [gen.s_call(b, []), gen.s_call(a, []), gen.s_call(hb, [gen.local(1)])]
